@@ -635,13 +635,14 @@ Definition tr_tree_at (c : tr_cfg) (d : path) (f0 ff : fs) (es : list tr_entry) 
      lookup f0 (d ++ [ln]) = None /\ lookup ff (d ++ [ln]) <> None) /\
   (forall q, lookup f0 q <> None -> lookup ff q <> None).
 
-(* both sides report success with the same names, the queues are empty, the tree is there, and
-   the transcript has the shape of the grammar *)
+(* both sides report success with the same names, the queues are empty, the tree is there, the
+   client's EXIT message carries exactly these names, and the transcript has the shape of the grammar *)
 Definition tr_outcome_ok {digest : Type} (c : tr_cfg) (d : path) (f0 : fs) (ess : list (tr_entry * tr_sched))
     (cf : tr_conf digest) : Prop :=
   tr_sender_ok digest cf = true /\ tr_receiver_ok digest cf = true /\ tr_quiet digest cf = true /\
   exists per all, ss_names (cf_s digest cf) = all /\ rs_names (cf_r digest cf) = all /\
     tr_tree_at c d f0 (st_fs (rs_st (cf_r digest cf))) (map fst ess) per all /\
+    (exists L, cf_log digest cf = L ++ [(tc_upload c, TrExit digest all)]) /\   (* the names the client reports *)
     tr_shape_ok digest (tr_pipeline c) (cf_log digest cf) = true.
 
 (* the escape table is absent or well-formed *)
